@@ -119,14 +119,37 @@ def run(chk):
             "%d°C to k°°" % a, "%d m°q" % a, "%d°C + 1 °X" % a, "%de20" % b, "%de-20" % b, "0.%s%d" % ("0" * 19, b), "%d.%s" % (a, "1234567890" * 2),
             "round(%d.5 %s, %d)" % (a, u, rnd.randint(-3, 3)), "floor(%d %s, 1)" % (a, u), "%d%% %s" % (a, u), "%d %s %%" % (a, u), "-%d%s ^ -%d" % (b, u, rnd.randint(1, 3)),
             "%d to %s to %s" % (a, u, rnd.choice(units)), "{%s" % u, "%d + {%s %s" % (a, u, u), "%d%s/%d%s" % (a, u, 0, u)])]
-    strings = [s for s in fixed + edge + soups + uni if not TOO_BIG.search(s)]
-    chk.cov["filtered_beyond_stated_bounds"] = len(fixed + edge + soups + uni) - len(strings)
+    # towers of two-digit powers over quantities: the powers of the units multiply up (99^5 > 2^31); products and quotients
+    # of such towers add them.  The value is kept at 1 or 0 so that only the unit arithmetic grows.
+    towers = []
+    for _ in range(max(200, p["soups"] // 20)):
+        # units that carry a factor (prefix, conversion) make the exact value grow with the power (10^(3p), 0.3048^p: seconds
+        # beyond p ~ 20 000, quadratic): their towers stay below that; coherent SI units carry no factor, their powers are free
+        scaled = rnd.random() < 0.25
+        u = rnd.choice(["km", "ft", "mi", "h", "mm/s"]) if scaled else rnd.choice(["m", "s", "kg", "J", "N", "W", "m/s", "J/N", "m^2", "s^-1", "Hz"])
+        def tower(depth):
+            t = "%d%s" % (rnd.choice([1, 1, 1, 0]), u)
+            total = 1
+            for _ in range(depth):
+                e = rnd.choice(["99", "99", "98", "-99", "64", "46", "22", "12", "-8", "2"])
+                if scaled and total * abs(int(e)) > 10000:
+                    break
+                total *= abs(int(e))
+                t = "(%s)^%s" % (t, e)
+            return t
+        a = tower(rnd.randint(2, 6))
+        towers.append(rnd.choice([a, a, "%s * %s" % (a, tower(rnd.randint(2, 5))), "%s / %s" % (a, tower(rnd.randint(2, 5))), "%s * 1%s" % (a, u), "%s to %s" % (a, u),
+                                  "%s + %s" % (a, a), "round(%s)" % a]))
+    towers += ["((((1m^99)^99)^99)^99)^99", "(1m^50000)^50000", "((((1m^99)^99)^99)^22) * ((((1m^99)^99)^99)^22)", "((((1J^99)^99)^99)^99)^12 * 1 m", "1 m^99 m^99 m^99"]
+    strings = [s for s in fixed + edge + towers + soups + uni if not TOO_BIG.search(s)]
+    chk.cov["filtered_beyond_stated_bounds"] = len(fixed + edge + towers + soups + uni) - len(strings)
     chk.cov["structured_edge_cases"] = len(edge)
+    chk.cov["towers_of_powers"] = len(towers)
     for profile in ("dbg", "release"):
         run_strings(chk, strings, "c11-strings", "soups and Unicode strings", profile)
     # a sample through the real binary
     w = vlib.workdir("c11-bin")
-    sample = fixed + rnd.sample(edge, min(len(edge), p["binary"] // 2)) + rnd.sample(soups, min(len(soups), p["binary"]))
+    sample = fixed + towers[:20] + rnd.sample(edge, min(len(edge), p["binary"] // 2)) + rnd.sample(soups, min(len(soups), p["binary"]))
     sample = [s for s in sample if not TOO_BIG.search(s) and "\x00" not in s]
     inp, out = os.path.join(w, "queries.ndjson"), os.path.join(w, "rec.ndjson")
     vlib.write_ndjson(inp, sample)
